@@ -146,14 +146,19 @@ def search(ctx):
                 stats["evaluations"] += 1
             for s, bare, act in outs:
                 if act != outs[0][2]:
+                    # bare-word spellings are known finding F09b: at most two of them are reported
+                    stats["bare_reports" if bare else "reports"] += 1
+                    if bare and stats["bare_reports"] > 2:
+                        continue
                     vios.append({"input": {"config": ctext.replace(root, "<root>"), "cwd": cwd.replace(root, "<root>"), "commands": ["cat " + outs[0][0].replace(root, "<root>"), "cat " + s.replace(root, "<root>")]}, "observed": [outs[0][2], act], "required": "same file, same command-rule verdict for path arguments", "oracle": "command-arg-spelling", "bare_word": bare})
-            if len(vios) >= 5:
+            if stats["reports"] >= 5:
                 break
     finally:
         if saved_home is not None:
             os.environ["HOME"] = saved_home
         shutil.rmtree(root, ignore_errors=True)
-    return {"violations": vios[:5], "evaluations": stats["evaluations"], "distinct_nontrivial": stats["same_file_spellings"], "stats": dict(stats), "samples": samples, "oracle": "realpath-equal spellings => equal match_redirect / analyze; allow D/** => realpath under D"}
+    vios.sort(key=lambda v: bool(v.get("bare_word")))
+    return {"violations": vios[:7], "evaluations": stats["evaluations"], "distinct_nontrivial": stats["same_file_spellings"], "stats": dict(stats), "samples": samples, "oracle": "realpath-equal spellings => equal match_redirect / analyze; allow D/** => realpath under D"}
 
 
 def matches_finding(entry, v) -> bool:
